@@ -55,3 +55,12 @@ Definition plus_ref (m : list N -> bool) (w : list N) : bool :=
 (* first word on which [m] (a grammar's membership) differs from the reference predicate *)
 Definition pred_diff {V1} `{EqDec V1} (H : cfg V1) (ref : list N -> bool) (ws : list (list N)) : option (list N) :=
   find (fun w => negb (Bool.eqb (cfg_member H w) (ref w))) ws.
+
+(* ---- C14 / C15 ---- *)
+From PFL Require Export Oracle.CfgTree Model.LL1.
+Definition tree_judge {Vr} `{EqDec Vr} (G : cfg Vr) (t : tree Vr) (w : list N) : bool * bool * bool :=
+  (tree_ok G t, eqb (yield t) w, match g_start G with Some s => eqb (root t) (V s) | None => false end).
+Definition first_of {Vr} `{EqDec Vr} (G : cfg Vr) (A : Vr) : list (option N) :=
+  map snd (filter (fun p => eqb A (fst p)) (first_set G)).
+Definition follow_of {Vr} `{EqDec Vr} (G : cfg Vr) (A : Vr) : list (option N) :=
+  map snd (filter (fun p => eqb A (fst p)) (follow_set G)).
